@@ -410,9 +410,17 @@ var rOwnedBranches = &Rule{
 }
 
 func freshSlice(v ssa.Value, d int) bool {
-	if d > 6 {
+	return freshSliceS(v, d, map[ssa.Value]bool{})
+}
+
+func freshSliceS(v ssa.Value, d int, seen map[ssa.Value]bool) bool {
+	if d > 10 {
 		return false
 	}
+	if seen[v] {
+		return true // a cycle through a loop phi: decided by the other edges
+	}
+	seen[v] = true
 	switch x := v.(type) {
 	case *ssa.MakeSlice:
 		return true
@@ -422,17 +430,27 @@ func freshSlice(v ssa.Value, d int) bool {
 		if _, ok := x.X.(*ssa.Alloc); ok {
 			return true
 		}
-		return freshSlice(x.X, d+1)
+		return freshSliceS(x.X, d+1, seen)
 	case *ssa.Phi:
 		for _, e := range x.Edges {
-			if e != v && !freshSlice(e, d+1) {
+			if e != v && !freshSliceS(e, d+1, seen) {
 				return false
 			}
 		}
 		return true
 	case *ssa.Call:
 		if b, ok := x.Call.Value.(*ssa.Builtin); ok && b.Name() == "append" {
-			return freshSlice(x.Call.Args[0], d+1)
+			return freshSliceS(x.Call.Args[0], d+1, seen)
+		}
+		// a module function every return of which is a fresh slice
+		if h := sx.Callee(x); h != nil && h.Blocks != nil && x.Parent() != nil && h.Pkg == x.Parent().Pkg {
+			rets := sx.Returns(h)
+			for _, r := range rets {
+				if len(r.Results) != 1 || !freshSliceS(r.Results[0], d+1, seen) {
+					return false
+				}
+			}
+			return len(rets) > 0
 		}
 	case *ssa.UnOp:
 		// load of the same field during incremental construction (e.errs = append(e.errs, …))
@@ -443,7 +461,7 @@ func freshSlice(v ssa.Value, d int) bool {
 		}
 		if al, ok := x.X.(*ssa.Alloc); ok {
 			for _, r := range *al.Referrers() {
-				if st, ok := r.(*ssa.Store); ok && st.Addr == al && !freshSlice(st.Val, d+1) {
+				if st, ok := r.(*ssa.Store); ok && st.Addr == al && !freshSliceS(st.Val, d+1, seen) {
 					return false
 				}
 			}
